@@ -293,3 +293,19 @@ def shrink_json_pair(base, x, still_fails, budget=40):
             for i in range(len(bl)): yield (''.join(bl[:i] + bl[i + 1:]), y)
             for i in range(len(yl)): yield (b, ''.join(yl[:i] + yl[i + 1:]))
     return core.shrink((base, x), still_fails, cands, budget=budget)
+
+
+def judge_reapply(res):
+    """the decisions nbdime returned, applied a second time to a fresh copy of base, must give the merged document again, and the
+    decision list must be unchanged by having been applied (merge_notebooks and nbmerge --decisions hand them out AFTER applying them)"""
+    if not isinstance(res, dict) or 'merged_again' not in res: return None, None
+    m, m2 = res.get('merged'), res.get('merged_again')
+    if not (isinstance(m, dict) and 'ok' in m): return None, None
+    if 'ok' not in m2:
+        return 'decisions-not-reusable:second-application-raises:' + str(m2.get('err')), {'msg': m2.get('msg')}
+    if not pyspec.strict_eq(m2['ok'], m['ok']):
+        return 'decisions-not-reusable:second-application-differs', {'first': m['ok'], 'second': m2['ok']}
+    d0 = res.get('decisions', {}).get('ok'); d1 = res.get('decisions_after')
+    if d0 is not None and d1 is not None and pyspec.canon(d0) != pyspec.canon(d1):
+        return 'apply-modifies-the-decisions', {'before': d0, 'after': d1}
+    return None, None
